@@ -215,38 +215,39 @@ def _reset_psyclone():
 
 
 _SLUGS = [
-    (r"must have at least one argument that is updated", "no-written-argument"),
-    (r"continuous function space .* (gh_write|gh_readwrite)|"
-     r"allowed accesses for (a )?fields? on", "access-not-legal-for-space"),
-    (r"specifies one or more 'gh_shapes'.*does not need", "shape-without-funcs"),
-    (r"must also supply the shape", "funcs-without-shape"),
-    (r"function spaces specified in 'meta_funcs' must exist", "func-space-not-an-argument"),
-    (r"specifies 'gh_evaluator_targets'.*does not need", "targets-without-evaluator"),
-    (r"evaluator is required on .* but does not have an argument",
-     "target-space-not-an-argument"),
-    (r"fixed stencil extents are not currently", "fixed-stencil-extent"),
-    (r"stencil.*must be read ?only|stencil .* gh_read", "stencil-on-written-field"),
-    (r"LMA operator argument must only have field arguments with 'gh_real'",
-     "integer-field-with-operator"),
-    (r"inter-?grid", "intergrid-rule"),
     (r"Intergrid kernels can only be setup inside an InvokeSchedule",
      "intergrid-unsupported-by-stub"),
     (r"kernel-stub generator supports kernels that operate on",
      "operates-on-unsupported-by-stub"),
-    (r"domain", "domain-rule"),
-    (r"operates_on|iteration space|'dof'", "operates-on-rule"),
-    (r"columnwise|CMA|cma", "cma-rule"),
-    (r"vector", "vector-rule"),
-    (r"operator", "operator-rule"),
-    (r"scalar", "scalar-rule"),
-    (r"reference.element|mesh", "property-rule"),
+    (r"inter-?grid", "intergrid-rule"),
+    (r"must have at least one argument that is updated", "no-written-argument"),
+    (r"stencil access must be read-only", "stencil-on-written-field"),
+    (r"fixed stencil extents are not currently", "fixed-stencil-extent"),
+    (r"operates on DoFs", "dof-kernel-rule"),
+    (r"operate on the domain", "domain-rule"),
+    (r"allowed accesses for operators", "operator-access-not-legal"),
+    (r"allowed accesses for fields on", "access-not-legal-for-space"),
+    (r"specifies one or more 'gh_shapes'.*does not need", "shape-without-funcs"),
+    (r"must also supply the shape", "funcs-without-shape"),
+    (r"function spaces specified in 'meta_funcs' must exist",
+     "func-space-not-an-argument"),
+    (r"specifies 'gh_evaluator_targets'.*does not need",
+     "targets-without-evaluator"),
+    (r"evaluator is required on .* but does not have an argument",
+     "target-space-not-an-argument"),
+    (r"LMA operator argument must only have field arguments with 'gh_real'",
+     "integer-field-with-operator"),
+    (r"Unsupported space for (differential )?basis function",
+     "basis-on-unsupported-space"),
+    (r"columnwise|CMA", "cma-rule"),
+    (r"reference.element|mesh_data_type|meta_mesh", "property-rule"),
 ]
 
 
 def _slug(exc):
     text = str(exc).replace("\n", " ")
     for pattern, slug in _SLUGS:
-        if re.search(pattern, text):
+        if re.search(pattern, text, re.I):
             return slug
     words = re.sub(r"'[^']*'|\d+", "", text)
     words = re.sub(r"[^A-Za-z ]+", " ", words).split()
